@@ -331,6 +331,8 @@ type c03Stranger struct {
 	Friend interface{}
 }
 
+type c03USchema struct{ Query *c03UQuery }
+
 type c03UQuery struct {
 	Pet  interface{}
 	Pets []interface{}
@@ -531,7 +533,7 @@ func c03Exec(in c03Input) {
 		var b bytes.Buffer
 		_ = ggql.WriteJSONValue(&b, res, r.Intn(3)-1)
 	case "resolve-unbound":
-		root := ggql.NewRoot(c03UnboundData(r))
+		root := ggql.NewRoot(&c03USchema{Query: c03UnboundData(r)})
 		if err := root.ParseString(c03UnboundSDL); err != nil {
 			panic(err)
 		}
